@@ -248,13 +248,15 @@ type rig struct {
 	chainKeyOf   map[string]string // leaf_input -> chain key of the entry (submitted entries only)
 	// foreign: leaf_input of hand-written hash-form entries -> the storage key they name ("" for a made-up hash);
 	// while storage does not hold that key the entry cannot be served
-	foreign map[string]string
+	foreign    map[string]string
+	everStored map[string]bool // storage keys that were in storage at some point of the case
+	hung             bool // a request to the indirect instance never came back (its goroutine is abandoned)
 	want             map[string][][]byte // leaf_input -> acceptable reference extra_data values (two precertificates may share a TBS and differ in signature)
 	mu               sync.Mutex
 }
 
 func newRig(t *testing.T, c Case) *rig {
-	r := &rig{beD: reflog.New(1, 1), beI: reflog.New(1, 1), store: memstore.New(), clock: ctfex.NewClock(time.UnixMilli(1700000000123)), want: map[string][][]byte{}, damaged: map[string]bool{}, chainKeyOf: map[string]string{}, foreign: map[string]string{}}
+	r := &rig{beD: reflog.New(1, 1), beI: reflog.New(1, 1), store: memstore.New(), clock: ctfex.NewClock(time.UnixMilli(1700000000123)), want: map[string][][]byte{}, damaged: map[string]bool{}, chainKeyOf: map[string]string{}, foreign: map[string]string{}, everStored: map[string]bool{}}
 	key := keys.Pick("p256", 5)
 	var err error
 	r.direct, err = ctfex.New(ctfex.Opts{LogKey: key, Roots: world.Roots(), Backend: r.beD, Clock: r.clock})
@@ -277,6 +279,7 @@ func newRig(t *testing.T, c Case) *rig {
 	if err != nil {
 		t.Fatalf("indirect: %v", err)
 	}
+	r.indirect.Watchdog = 30 * time.Second // honest requests take milliseconds; only a deadlock reaches this
 	return r
 }
 
@@ -400,10 +403,18 @@ func parseEntries(body []byte) ([]entry, error) {
 
 // compareRead issues the same read against both instances and judges the indirect answer.
 func (r *rig) compareRead(v *harness.Verdict, path, query string, isEAP bool) {
+	if r.hung {
+		return
+	}
 	d := r.direct.Get(path, query)
 	before := r.snap()
 	i := r.indirect.Get(path, query)
 	after := r.snap()
+	if i.Hung {
+		r.hung = true
+		v.Failf("request-hung", "%s?%s: the instance with external chain storage had not answered after %v (the direct one answered %d at once)", path, query, r.indirect.Watchdog, d.Status)
+		return
+	}
 	if d.Status != 200 {
 		// request not servable at all (e.g. beyond the tree): the indirect instance must not succeed with data either
 		if i.Status == 200 {
@@ -423,7 +434,12 @@ func (r *rig) compareRead(v *harness.Verdict, path, query string, isEAP bool) {
 		}
 		for _, e := range de {
 			key, isForeign := r.foreign[string(e.leaf)]
-			if _, stored := r.store.M[key]; isForeign && key != "" && stored {
+			for k := range r.store.M {
+				r.everStored[k] = true
+			}
+			// a chain that storage held at some point may still be in the cache after its row was deleted: the
+			// hash is not unknown to the service then (a deleted row is "damage", judged below)
+			if isForeign && key != "" && r.everStored[key] {
 				v.Class("hand-written-hash-form-entry-resolvable")
 				continue // the chain is in storage by now: judged like every other entry below
 			}
@@ -526,9 +542,17 @@ func (r *rig) submit(v *harness.Verdict, s *world.ChainSpec) {
 	}
 	r.clock.Add(time.Millisecond)
 	body := addBody(b.Submit)
+	if r.hung {
+		return
+	}
 	before := r.snap()
 	ri := r.indirect.Post(path, body)
 	after := r.snap()
+	if ri.Hung {
+		r.hung = true
+		v.Failf("request-hung", "%s: the instance with external chain storage had not answered after %v", path, r.indirect.Watchdog)
+		return
+	}
 	if ri.Status != 200 {
 		if !r.transientFired(before, after) {
 			v.Failf("indirect-submission-refused", "%s refused by the indirect instance although no fault fired during the request: %d %q", path, ri.Status, trunc(ri.Body))
@@ -555,6 +579,9 @@ func (r *rig) submit(v *harness.Verdict, s *world.ChainSpec) {
 			r.chainKeyOf[string(lv)] = k
 		}
 		r.mu.Unlock()
+		if _, ok := r.store.M[k]; ok {
+			r.everStored[k] = true
+		}
 		if _, ok := r.store.M[k]; !ok && len(r.damaged) == 0 && !r.addFault {
 			v.Failf("chain-not-stored", "a submission was answered 200 but its issuance chain is not in storage under its hash (store has %d rows)", r.store.Len())
 		}
